@@ -107,6 +107,10 @@ def split_template(rnd: random.Random, nodes: List[Dict[str, Any]], base_name: s
                     for k2 in range(len(kids)):
                         if kids[k2]["t"] in ("fill", "block", "super") or rnd.random() > 0.2:
                             continue
+                        # an implicit component body that flattens to nothing counts as "no body" in the
+                        # specification while the real tag still holds a node: is_filled is not determined there
+                        if n["t"] == "comp" and n.get("body") == "impl" and len(kids) == 1:
+                            continue
                         counter[0] += 1
                         bn = f"{prefix}n{counter[0]}"
                         e = kids[k2]
@@ -186,14 +190,24 @@ def finding_key(p, e, o, m) -> Optional[str]:
     - the same {% block %} names used in the page's family and in a component's family."""
     if m["what"] not in ("tokens", "hang", "unexpected-error", "error-class"):
         return None
-    if p.get("block_names_collide"):
-        return "same-block-names-in-two-families:blocks-of-other-template"
     ext = {i + 1 for i, c in enumerate(p["comps"]) if c.get("ext")}
     insts = [(tuple(path), c) for path, c in e["insts"] if c in ext]
+    # the default alias of a fill used inside a {% block %} override that sits in that fill (open finding)
+    if m["what"] == "tokens" and p["mode"] == "django" and _defref_in_block(p):
+        return "default-alias-inside-block-override:default-content-not-rendered"
+    # (the three shapes below were repaired - KNOWN_FINDINGS.txt lists them as `fixed:` - so these keys excuse
+    #  nothing any more; they only label a violation should the defect return)
+    if p.get("block_names_collide"):
+        return "same-block-names-in-two-families:blocks-of-other-template"
     # a {% block %} written inside a {% slot %} (default content) or inside the body of a component tag
     # (a {% fill %} or the implicit body) is rendered through a separate Template / context copy that does
     # not see the family's block overrides
     if _block_in_slot_or_comp_body(p):
+        # ... and what goes wrong is that a block prints the content of the wrong level of its family (base instead
+        # of override or the reverse, once or every time): a token difference is excused only if every token that
+        # differs can come from the content of a {% block %} of the program
+        if m["what"] == "tokens" and not _block_content_difference(p, e, o):
+            return None
         return "block-inside-slot-or-component-body:not-resolved-in-its-family"
     # django mode: the BlockContext of the surrounding render is shared into every component template, so an
     # extends-based component rendered together with another family (the page's, or another extends-based
@@ -201,6 +215,66 @@ def finding_key(p, e, o, m) -> Optional[str]:
     if p["mode"] == "django" and insts and (p.get("pext") or len(insts) > 1):
         return "django-extends-component-with-other-family:blocks-of-other-template"
     return None
+
+
+def _defref_in_block(p) -> bool:
+    def walk(nodes, inblock=False):
+        for n in nodes:
+            if n["t"] == "defref" and inblock:
+                return True
+            for k in ("a", "b"):
+                if isinstance(n.get(k), list) and walk(n[k], inblock or n["t"] == "block"):
+                    return True
+        return False
+    return walk(p["page"]) or any(walk(c["tpl"]) for c in p["comps"]) or any(walk(t["a"]) for t in p["tpls"])
+
+
+def _atom(tok: str) -> str:
+    return tok.split("=", 1)[0] + "=" if "=" in tok else tok
+
+
+def _block_content_difference(p, e, o) -> bool:
+    """True if the multiset difference between expected and observed tokens consists only of tokens that the
+    content of some {% block %} node (base or override) can print; block contents holding component / slot /
+    default-alias / include nodes can print anything (no narrowing then)."""
+    import collections
+    atoms = set()
+    wild = [False]
+
+    def content(nodes):
+        for n in nodes:
+            t = n["t"]
+            if t == "text":
+                atoms.add(n["id"])
+            elif t == "var":
+                atoms.add(n["x"] + "=")
+            elif t == "fld":
+                atoms.add(n["x"] + "." + n["f"] + "=")
+            elif t == "isf":
+                atoms.add("?" + n["s"] + "=")
+            elif t in ("comp", "slot", "defref", "include", "fill"):
+                wild[0] = True
+            for k in ("a", "b"):
+                if isinstance(n.get(k), list):
+                    content(n[k])
+
+    def walk(nodes):
+        for n in nodes:
+            if n["t"] == "block":
+                content(n["a"])
+            for k in ("a", "b"):
+                if isinstance(n.get(k), list):
+                    walk(n[k])
+    walk(p["page"])
+    for c in p["comps"]:
+        walk(c["tpl"])
+    for t in p["tpls"]:
+        walk(t["a"])
+    if wild[0]:
+        return True
+    ce, co = collections.Counter(e["out"]), collections.Counter(o.get("out") or [])
+    diff = list((ce - co).elements()) + list((co - ce).elements())
+    return all(_atom(t) in atoms for t in diff)
 
 
 def _block_in_slot_or_comp_body(p) -> bool:
